@@ -3,13 +3,16 @@
    service/transition_pe.go (executeTxsConcurrent, executionContext) on top of
    service/state/worldvirtualstate.go (lock-request futures) and worldContext.GetFuture.
 
-   Transactions 1..K in block order.  Each declares locks (per account none/read/write, or the
-   world write lock) and runs a program of reads and writes; its fate says how the execution ends
+   Transactions 1..K in block order.  Each declares locks (per account none/read/write, the world write
+   lock, or the world read lock plus write locks), may call Ensure() in Prepare (as CallHandler does) and runs
+   a program of reads and writes; its fate says how the execution ends
    (ok, non-retryable failure, retryable failure once, retryable failure until the retries are
    exhausted).  One action per critical section of the real code:
 
      Top      dispatcher loop top for the next transaction: error-latch check (executionContext.Error),
               then Prepare -> GetFuture -> applyLockRequests (futures: `depend` = last locker)
+     Ensure   WorldVirtualState.Ensure() called by Prepare in the dispatcher: resolves every locked account now
+              (waits for the commit of every dependency before the transaction is even started)
      Spawn    dispatcher passes executionContext.Ready (a free slot out of Level) and starts the goroutine
      Begin    goroutine start: GetSnapshot + UpdateSystemInfo (reads the system account under the implicit
               read lock added by worldContext.GetFuture: waits for the last world locker; a world-lock
@@ -19,11 +22,18 @@
               (executionContext.Report)
      Commit   wvs.Commit (may wait for dependencies of write-locked accounts never touched), Done
      Exit     dispatcher after the loop: Realize of the last future (waits for every commit), return
+     Cancel   the owner of the transition calls the canceler while transactions are in flight (transition.cancelExecution):
+              the dispatcher stops at its next loop top (ErrTransitionInterrupted); whatever the executor returns
+              afterwards is not reported (reportExecution ignores a cancelled transition)
 
    Impl = "required": Report latches the first error, the dispatcher returns the latched error after
                       the final Realize.
    Impl = "code":     Report as written in transition_pe.go (latches only if an error is already set) and
                       no check after the final Realize.
+   ImplWR = "required": a world-read-lock transaction is registered as world locker, later transactions wait for it.
+   ImplWR = "code":     as written in applyLockRequests: only a world WRITE lock registers a locker; the reader
+                        takes its base from real.GetSnapshot() when its predecessors have committed, which contains
+                        whatever later transactions wrote in the meantime.
    Conformance replays always use "required". *)
 EXTENDS Integers, Sequences, FiniteSets, TLC
 CONSTANTS K,          \* transactions per block
@@ -33,7 +43,10 @@ CONSTANTS K,          \* transactions per block
           MaxLen,     \* operations per program
           Fates,      \* subset of {"ok", "fatal", "retry1", "retryx"}
           MaxFail,    \* at most that many transactions with a fate other than "ok"
-          WorldTx,    \* BOOLEAN: world-write-lock transactions allowed
+          WorldTx,    \* subset of {"R", "W"}: kinds of world-lock transactions allowed
+          EnsureTx,   \* BOOLEAN: transactions that call Ensure() in Prepare allowed
+          ImplWR,     \* "required" | "code" (world read lock, see above)
+          CancelOn,   \* BOOLEAN: the transition may be cancelled
           RetryCount, \* service.RetryCount (2)
           MaxOps      \* 0: exhaustive checker (history keeps the last call only), n > 0: generator
 
@@ -41,10 +54,11 @@ Tx == 1..K
 VARIABLES prog,       \* descriptor per dispatched transaction (chosen when it is dispatched)
           real,       \* the one mutable world: Acc -> value (0 = initial, t = written by transaction t)
           disp,       \* transactions prepared so far (GetFuture done for 1..disp, in block order)
-          dpc,        \* dispatcher: "top" | "ready" (prepared `disp`, waiting for a slot)
+          dpc,        \* dispatcher: "top" | "ensure" (inside Ensure of `disp`) | "ready" (prepared `disp`, waiting for a slot)
           las,        \* las[t][a] = [lock, dep, kind ("none","real","ro"), val]   lockedAccountState
-          wlock,      \* world lock per transaction: "N", "W", "U"
-          wsnap,      \* committed world snapshot of a world-lock transaction
+          wlock,      \* world lock per transaction: "N", "R", "W", "U"
+          wsnap,      \* committed world snapshot of a world-write-lock transaction
+          wbase,      \* base snapshot of a world-read-lock transaction (taken when it begins)
           sysdep,     \* dependency of the implicit system-account read lock (last world locker or 0)
           ph,         \* "none" | "prepared" | "spawned" | "exec" | "done" | "committed"
           pc,         \* index of the next operation
@@ -55,10 +69,11 @@ VARIABLES prog,       \* descriptor per dispatched transaction (chosen when it i
           roCache,    \* roAccounts: Acc -> value or -1
           latch,      \* executionContext.lastError (0 = nil, t = error of transaction t)
           rcpt,       \* receipt slot filled
-          result,     \* "run" | "ok" | "err"
+          result,     \* "run" | "ok" | "err" | "cancelled" (nothing is reported)
+          cancelled,  \* the canceler has been called
           hist
-vars == <<prog, real, disp, dpc, las, wlock, wsnap, sysdep, ph, pc, att, saved, lastAL, lastWL, roCache,
-          latch, rcpt, result, hist>>
+vars == <<prog, real, disp, dpc, las, wlock, wsnap, wbase, sysdep, ph, pc, att, saved, lastAL, lastWL, roCache,
+          latch, rcpt, result, cancelled, hist>>
 
 Ops == {"r", "w"} \X Acc
 OpSeqs == UNION {[1..n -> Ops] : n \in 0..MaxLen}
@@ -66,13 +81,17 @@ Locks == [Acc -> {"N", "R", "W"}]
 NoLocks == [a \in Acc |-> "N"]
 \* a program only touches what it declared: reads need a read or write lock, writes a write lock
 ValidProg(p) ==
-  /\ p.world => p.lock = NoLocks
-  /\ ~p.world => \A i \in 1..Len(p.ops) :
+  /\ p.world = "W" => (p.lock = NoLocks /\ ~p.ens)
+  \* under the world read lock account read locks are subsumed; writes still need a write lock
+  /\ p.world = "R" => (~p.ens /\ \A a \in Acc : p.lock[a] # "R") /\
+                       \A i \in 1..Len(p.ops) : p.ops[i][1] = "w" => p.lock[p.ops[i][2]] = "W"
+  /\ p.world = "N" => \A i \in 1..Len(p.ops) :
         LET o == p.ops[i] IN IF o[1] = "w" THEN p.lock[o[2]] = "W" ELSE p.lock[o[2]] # "N"
-Progs == {p \in [world : IF WorldTx THEN BOOLEAN ELSE {FALSE}, lock : Locks, ops : OpSeqs, fate : Fates] : ValidProg(p)}
+Progs == {p \in [world : {"N"} \cup WorldTx, ens : IF EnsureTx THEN BOOLEAN ELSE {FALSE}, lock : Locks, ops : OpSeqs,
+                 fate : Fates] : ValidProg(p)}
 
 NoLas == [lock |-> "N", dep |-> 0, kind |-> "none", val |-> 0]
-NoProg == [world |-> FALSE, lock |-> NoLocks, ops |-> <<>>, fate |-> "ok"]
+NoProg == [world |-> "N", ens |-> FALSE, lock |-> NoLocks, ops |-> <<>>, fate |-> "ok"]
 Running == {t \in Tx : ph[t] \in {"spawned", "exec", "done"}}
 Failures == Cardinality({t \in 1..disp : prog[t].fate # "ok"})
 
@@ -97,10 +116,11 @@ SeqRef == [reads |-> [t \in Tx |-> [i \in 1..Len(prog[t].ops) |->
            first |-> FirstFail]
 
 \* ---------------------------------------------------------------- guards (where the real code waits)
-BeginGuard(t) == IF wlock[t] = "W" THEN \A u \in 1..(t-1) : ph[u] = "committed"
+BeginGuard(t) == IF wlock[t] \in {"W", "R"} THEN \A u \in 1..(t-1) : ph[u] = "committed"
                  ELSE IF sysdep[t] = 0 THEN TRUE ELSE ph[sysdep[t]] = "committed"
 StepGuard(t) == LET a == prog[t].ops[pc[t]][2]  l == las[t][a] IN
-                IF wlock[t] = "W" \/ l.dep = 0 THEN TRUE ELSE ph[l.dep] = "committed"
+                IF wlock[t] = "W" \/ l.lock = "N" \/ l.dep = 0 THEN TRUE ELSE ph[l.dep] = "committed"
+EnsureGuard == \A a \in Acc : IF las[disp][a].lock # "N" /\ las[disp][a].dep # 0 THEN ph[las[disp][a].dep] = "committed" ELSE TRUE
 CommitGuard(t) == \A a \in Acc : IF las[t][a].lock = "W" /\ las[t][a].dep # 0 THEN ph[las[t][a].dep] = "committed" ELSE TRUE
 SlotFree == Cardinality(Running) < Level
 \* goroutines / the dispatcher parked inside the real code after this step (the replay driver lets them run
@@ -109,6 +129,7 @@ Blocked == {t \in Tx : \/ ph[t] = "spawned" /\ ~BeginGuard(t)
                        \/ ph[t] = "exec" /\ pc[t] <= Len(prog[t].ops) /\ ~StepGuard(t)
                        \/ ph[t] = "done" /\ ~CommitGuard(t)}
 DispBlocked == dpc = "ready" /\ ~SlotFree
+EnsureBlocked == dpc = "ensure" /\ ~EnsureGuard
 
 \* ---------------------------------------------------------------- history
 \* (once the dispatcher has returned the outcome of the block is decided: nothing else is recorded)
@@ -116,34 +137,42 @@ Can == result = "run" /\ (MaxOps = 0 \/ Len(hist) < MaxOps)
 Final(r) == IF MaxOps = 0 THEN r ELSE r @@ [seq |-> SeqRef]
 Rec(op, t) == [op |-> op, t |-> t, i |-> 0, k |-> "", a |-> "", val |-> 0, out |-> "", prog |-> NoProg]
 Log(r) == hist' = IF MaxOps = 0 THEN <<r>>
-                  ELSE Append(hist, r @@ [blk |-> Blocked', dblk |-> DispBlocked', real |-> real', latch |-> latch'])
+                  ELSE Append(hist, r @@ [blk |-> Blocked', dblk |-> DispBlocked', eblk |-> EnsureBlocked', real |-> real', latch |-> latch'])
 
 Init == /\ prog = [t \in Tx |-> NoProg] /\ real = [a \in Acc |-> 0] /\ disp = 0 /\ dpc = "top"
         /\ las = [t \in Tx |-> [a \in Acc |-> NoLas]]
         /\ wlock = [t \in Tx |-> "N"] /\ wsnap = [t \in Tx |-> [a \in Acc |-> 0]]
+        /\ wbase = [t \in Tx |-> [a \in Acc |-> -1]]
         /\ sysdep = [t \in Tx |-> 0] /\ ph = [t \in Tx |-> "none"] /\ pc = [t \in Tx |-> 0]
         /\ att = [t \in Tx |-> 0] /\ saved = [t \in Tx |-> [a \in Acc |-> 0]]
         /\ lastAL = [a \in Acc |-> 0] /\ lastWL = 0 /\ roCache = [a \in Acc |-> -1]
-        /\ latch = 0 /\ rcpt = [t \in Tx |-> FALSE] /\ result = "run" /\ hist = <<>>
+        /\ latch = 0 /\ rcpt = [t \in Tx |-> FALSE] /\ result = "run" /\ cancelled = FALSE /\ hist = <<>>
 
 \* ---- dispatcher, loop top for transaction disp+1: latch check, Prepare -> GetFuture -> applyLockRequests
 TopFail ==
-  /\ Can /\ result = "run" /\ dpc = "top" /\ disp < K /\ latch # 0
-  /\ result' = "err"
-  /\ UNCHANGED <<prog, real, disp, dpc, las, wlock, wsnap, sysdep, ph, pc, att, saved, lastAL, lastWL, roCache,
-                 latch, rcpt>>
+  /\ Can /\ result = "run" /\ dpc = "top" /\ disp < K /\ (latch # 0 \/ cancelled)
+  /\ result' = IF cancelled THEN "cancelled" ELSE "err"
+  /\ UNCHANGED <<prog, real, disp, dpc, las, wlock, wsnap, wbase, sysdep, ph, pc, att, saved, lastAL, lastWL, roCache,
+                 latch, rcpt, cancelled>>
   /\ Log(Final(Rec("topfail", disp + 1)))
 Top(p) ==
-  /\ Can /\ result = "run" /\ dpc = "top" /\ disp < K /\ latch = 0
+  /\ Can /\ result = "run" /\ dpc = "top" /\ disp < K /\ latch = 0 /\ ~cancelled
   /\ p \in Progs /\ (p.fate # "ok" => Failures < MaxFail)
   /\ LET t == disp + 1 IN
-     /\ disp' = t /\ dpc' = "ready" /\ prog' = [prog EXCEPT ![t] = p] /\ ph' = [ph EXCEPT ![t] = "prepared"]
-     /\ IF p.world
+     /\ disp' = t /\ dpc' = (IF p.ens THEN "ensure" ELSE "ready")
+     /\ prog' = [prog EXCEPT ![t] = p] /\ ph' = [ph EXCEPT ![t] = "prepared"]
+     \* a world reader whose parent future is already committed (a committed world writer) takes that snapshot as base
+     \* (as does the first transaction: NewWorldVirtualState takes the snapshot of the world at once)
+     /\ wbase' = IF p.world # "R" THEN wbase
+                 ELSE IF t = 1 THEN [wbase EXCEPT ![t] = real]
+                 ELSE IF wlock[t-1] = "U" THEN [wbase EXCEPT ![t] = wsnap[t-1]] ELSE wbase
+     /\ IF p.world = "W"
           THEN /\ wlock' = [wlock EXCEPT ![t] = "W"]
                /\ lastAL' = [a \in Acc |-> 0] /\ lastWL' = t
                /\ UNCHANGED <<las, roCache, sysdep, saved>>
-          ELSE /\ UNCHANGED <<wlock, lastWL>>
-               /\ sysdep' = [sysdep EXCEPT ![t] = lastWL]
+          ELSE /\ wlock' = [wlock EXCEPT ![t] = p.world]
+               /\ lastWL' = IF p.world = "R" /\ ImplWR = "required" THEN t ELSE lastWL
+               /\ sysdep' = [sysdep EXCEPT ![t] = IF p.world = "R" THEN 0 ELSE lastWL]
                /\ las' = [las EXCEPT ![t] = [a \in Acc |->
                      IF p.lock[a] = "N" THEN NoLas
                      ELSE LET d == IF lastAL[a] # 0 THEN lastAL[a] ELSE lastWL IN
@@ -153,42 +182,63 @@ Top(p) ==
                                 val |-> IF roCache[a] # -1 THEN roCache[a] ELSE real[a]]]]
                /\ roCache' = [a \in Acc |-> IF p.lock[a] = "R" /\ lastAL[a] = 0 /\ lastWL = 0 /\ roCache[a] = -1
                                              THEN real[a] ELSE roCache[a]]
-               /\ lastAL' = [a \in Acc |-> IF p.lock[a] = "W" THEN t ELSE lastAL[a]]
+               /\ lastAL' = [a \in Acc |-> IF p.lock[a] = "W" THEN t
+                                             ELSE IF p.world = "R" /\ ImplWR = "required" THEN 0 ELSE lastAL[a]]
                /\ saved' = [saved EXCEPT ![t] = real]
-     /\ UNCHANGED <<real, wsnap, pc, att, latch, rcpt, result>>
+     /\ UNCHANGED <<real, wsnap, pc, att, latch, rcpt, result, cancelled>>
      /\ Log([Rec("top", t) EXCEPT !.prog = p])
+\* value of account a as seen through committed transaction d (d.GetAccountROState)
+ViewOf(d, a) == IF wlock[d] = "U" THEN wsnap[d][a]
+                ELSE IF wlock[d] = "R" /\ las[d][a].lock = "N" THEN wbase[d][a]
+                ELSE las[d][a].val
+
+\* ---- Prepare calls Ensure(): every locked account is resolved now, in the dispatcher
+Ensure ==
+  /\ Can /\ result = "run" /\ dpc = "ensure" /\ EnsureGuard
+  /\ LET t == disp IN
+     /\ las' = [las EXCEPT ![t] = [a \in Acc |->
+           LET l == las[t][a] IN
+           IF l.lock = "N" \/ l.dep = 0 THEN l
+           ELSE IF l.lock = "W" THEN [l EXCEPT !.dep = 0, !.kind = "real"]
+           ELSE [l EXCEPT !.dep = 0, !.kind = "ro", !.val = ViewOf(l.dep, a)]]]
+     /\ saved' = [saved EXCEPT ![t] = [a \in Acc |->
+           IF las[t][a].lock = "W" /\ las[t][a].dep # 0 THEN real[a] ELSE saved[t][a]]]
+  /\ dpc' = "ready"
+  /\ UNCHANGED <<prog, real, disp, wlock, wsnap, wbase, sysdep, ph, pc, att, lastAL, lastWL, roCache, latch, rcpt, result, cancelled>>
+  /\ Log(Rec("ensure", disp))
 \* ---- dispatcher passes ec.Ready() and starts the goroutine of transaction disp
 Spawn ==
   /\ Can /\ result = "run" /\ dpc = "ready" /\ SlotFree
   /\ dpc' = "top" /\ ph' = [ph EXCEPT ![disp] = "spawned"]
-  /\ UNCHANGED <<prog, real, disp, las, wlock, wsnap, sysdep, pc, att, saved, lastAL, lastWL, roCache, latch, rcpt, result>>
+  /\ UNCHANGED <<prog, real, disp, las, wlock, wsnap, wbase, sysdep, pc, att, saved, lastAL, lastWL, roCache, latch, rcpt, result, cancelled>>
   /\ Log(Rec("spawn", disp))
 
-\* value of account a as seen through committed transaction d (d.GetAccountROState)
-ViewOf(d, a) == IF wlock[d] = "U" THEN wsnap[d][a] ELSE las[d][a].val
 
 \* ---- goroutine start: GetSnapshot, SetTransactionInfo, UpdateSystemInfo
 Begin(t) ==
   /\ Can /\ t \in Tx /\ ph[t] = "spawned" /\ BeginGuard(t)
   /\ ph' = [ph EXCEPT ![t] = "exec"] /\ pc' = [pc EXCEPT ![t] = 1]
   /\ saved' = IF wlock[t] = "W" THEN [saved EXCEPT ![t] = real] ELSE saved
-  /\ UNCHANGED <<prog, real, disp, dpc, las, wlock, wsnap, sysdep, att, lastAL, lastWL, roCache, latch, rcpt, result>>
+  \* realizeBaseInLock of a world reader: base = parent.committed = real.GetSnapshot() now (unless it had a base already)
+  /\ wbase' = IF wlock[t] = "R" /\ \E a \in Acc : wbase[t][a] = -1 THEN [wbase EXCEPT ![t] = real] ELSE wbase
+  /\ UNCHANGED <<prog, real, disp, dpc, las, wlock, wsnap, sysdep, att, lastAL, lastWL, roCache, latch, rcpt, result, cancelled>>
   /\ Log(Rec("begin", t))
 
 \* ---- one program operation of transaction t (getAccountStateInLock + read / write)
 Step(t) ==
   /\ Can /\ t \in Tx /\ ph[t] = "exec" /\ pc[t] <= Len(prog[t].ops) /\ StepGuard(t)
   /\ LET o == prog[t].ops[pc[t]]  a == o[2]  l == las[t][a]
-         nl == IF wlock[t] = "W" \/ l.dep = 0 THEN l
+         nl == IF wlock[t] = "W" \/ l.lock = "N" \/ l.dep = 0 THEN l
                ELSE IF l.lock = "W" THEN [l EXCEPT !.dep = 0, !.kind = "real"]
                ELSE [l EXCEPT !.dep = 0, !.kind = "ro", !.val = ViewOf(l.dep, a)]
-         seen == IF wlock[t] = "W" \/ nl.kind = "real" THEN real[a] ELSE nl.val
-     IN /\ las' = IF wlock[t] = "W" THEN las ELSE [las EXCEPT ![t][a] = nl]
+         seen == IF wlock[t] = "R" /\ l.lock = "N" THEN wbase[t][a]        \* world read lock: the base snapshot
+                 ELSE IF wlock[t] = "W" \/ nl.kind = "real" THEN real[a] ELSE nl.val
+     IN /\ las' = IF wlock[t] = "W" \/ l.lock = "N" THEN las ELSE [las EXCEPT ![t][a] = nl]
         \* a write lock whose dependency is resolved now: remember the value to restore on retry
         /\ saved' = IF wlock[t] # "W" /\ l.dep # 0 /\ l.lock = "W" THEN [saved EXCEPT ![t][a] = real[a]] ELSE saved
         /\ real' = IF o[1] = "w" THEN [real EXCEPT ![a] = t] ELSE real
         /\ pc' = [pc EXCEPT ![t] = @ + 1]
-        /\ UNCHANGED <<prog, disp, dpc, wlock, wsnap, sysdep, ph, att, lastAL, lastWL, roCache, latch, rcpt, result>>
+        /\ UNCHANGED <<prog, disp, dpc, wlock, wsnap, wbase, sysdep, ph, att, lastAL, lastWL, roCache, latch, rcpt, result, cancelled>>
         /\ Log([Rec("step", t) EXCEPT !.i = pc[t], !.k = o[1], !.a = a, !.val = IF o[1] = "r" THEN seen ELSE t])
 
 \* ---- Execute (+ OnTransactionEnd) returns
@@ -211,7 +261,7 @@ EndExec(t) ==
                            /\ latch' = IF (IF Impl = "code" THEN latch # 0 ELSE latch = 0) THEN t ELSE latch
                            /\ ph' = [ph EXCEPT ![t] = "done"]
                            /\ UNCHANGED <<real, att, pc, rcpt>>
-     /\ UNCHANGED <<prog, disp, dpc, las, wlock, wsnap, sysdep, saved, lastAL, lastWL, roCache, result>>
+     /\ UNCHANGED <<prog, disp, dpc, las, wlock, wsnap, wbase, sysdep, saved, lastAL, lastWL, roCache, result, cancelled>>
      /\ Log([Rec("end", t) EXCEPT !.out = out, !.i = att[t]])
 
 \* ---- wvs.Commit, ec.Done
@@ -224,24 +274,35 @@ Commit(t) ==
   /\ IF wlock[t] = "W" THEN /\ wlock' = [wlock EXCEPT ![t] = "U"] /\ wsnap' = [wsnap EXCEPT ![t] = real]
      ELSE UNCHANGED <<wlock, wsnap>>
   /\ ph' = [ph EXCEPT ![t] = "committed"]
-  /\ UNCHANGED <<prog, real, disp, dpc, sysdep, pc, att, saved, lastAL, lastWL, roCache, latch, rcpt, result>>
+  /\ UNCHANGED <<prog, real, disp, dpc, wbase, sysdep, pc, att, saved, lastAL, lastWL, roCache, latch, rcpt, result, cancelled>>
   /\ Log(Rec("commit", t))
 
 \* ---- dispatcher after the loop: Realize(last) waits for every commit, then return
 Exit ==
   /\ Can /\ result = "run" /\ dpc = "top" /\ disp = K /\ \A t \in Tx : ph[t] = "committed"
-  /\ result' = IF Impl = "code" THEN "ok" ELSE (IF latch # 0 THEN "err" ELSE "ok")
-  /\ UNCHANGED <<prog, real, disp, dpc, las, wlock, wsnap, sysdep, ph, pc, att, saved, lastAL, lastWL, roCache, latch, rcpt>>
+  /\ result' = IF cancelled THEN "cancelled"
+               ELSE IF Impl = "code" THEN "ok" ELSE (IF latch # 0 THEN "err" ELSE "ok")
+  /\ UNCHANGED <<prog, real, disp, dpc, las, wlock, wsnap, wbase, sysdep, ph, pc, att, saved, lastAL, lastWL, roCache, latch, rcpt, cancelled>>
   /\ Log(Final([Rec("exit", 0) EXCEPT !.out = result']))
+
+\* ---- the canceler is called
+Cancel ==
+  /\ Can /\ CancelOn /\ result = "run" /\ ~cancelled
+  /\ cancelled' = TRUE
+  /\ UNCHANGED <<prog, real, disp, dpc, las, wlock, wsnap, wbase, sysdep, ph, pc, att, saved, lastAL, lastWL, roCache,
+                 latch, rcpt, result>>
+  /\ Log(Rec("cancel", disp))
 
 Next == \/ TopFail
         \/ \E p \in Progs : Top(p)
+        \/ Ensure
         \/ Spawn
         \/ \E t \in Tx : Begin(t)
         \/ \E t \in Tx : Step(t)
         \/ \E t \in Tx : EndExec(t)
         \/ \E t \in Tx : Commit(t)
         \/ Exit
+        \/ Cancel
 Spec == Init /\ [][Next]_vars
 FairSpec == Spec /\ WF_vars(Next)
 
@@ -260,6 +321,8 @@ FinalEqualsSequential ==
 NoSilentDrop == (result = "ok") => \A t \in Tx : rcpt[t] /\ ~Fails(t)
 \* C10: and the other way round: a block without failing transaction is not reported as failed
 NoSpuriousFailure == (result = "err") => \E t \in 1..disp : Fails(t)
+\* C10: a cancelled transition never reports a (partial) success
+NoResultAfterCancel == cancelled => result \in {"run", "cancelled", "err"}
 \* the waits never deadlock: every execution ends
 Termination == <>(result # "run")
 TypeOK == /\ Cardinality(Running) <= Level
